@@ -53,6 +53,12 @@ fn main_step(k: usize, eg: &mut EGraph<T>, hs: &mut Vec<AppliedId>) {
         3 => {
             let s = Slot::fresh();
             println!("step3 fresh={s}");
+            // a slot named here for the first time next to a slot spelled `$f<n>`: how the two are ordered (and with it how the
+            // returned invocation pairs them with the class's parameters) must not depend on how many names OTHER threads have
+            // registered by now (seeded C20o: the table of spellings moved to a process-wide vector)
+            let c = add(eg, "(h (v $zz) (v $f3))");
+            let d = add(eg, "(f $f2 $zq)");
+            println!("step3 mixed {c:?} {d:?}");
         }
         4 => {
             let (x, y) = (hs[1].clone(), hs[3].clone());
@@ -155,6 +161,7 @@ fn noise_step(k: usize, eg: &mut EGraph<T>) {
             for _ in 0..5 { let _ = Slot::fresh(); }
             let _ = Slot::named("xname");
             let _ = Slot::named("other");
+            for n in ["n1", "n2", "n3", "n4", "n5", "n6"] { let _ = Slot::named(n); }
             let _ = RecExpr::<T>::parse(F_TEXT);       // the same text the main thread parses later
             for i in 0..9 { eg.add_expr(RecExpr::parse(&format!("(g {})", 4000 + i)).unwrap()); }
         }
